@@ -208,6 +208,16 @@ class PathEnum:
         if k == 'switch':
             v = self.operand(store, t['on'])
             v = fold(v)
+            if v[0] == 'discr-of-variant':
+                # the tag of a value built as a known variant on this path: only that arm is feasible
+                dn = None
+                for k_, vs_ in self.F.raw.get('enums', {}).items():
+                    if k_.split('::')[-1] == str(v[1]).split('::')[-1]:
+                        for x_ in vs_:
+                            if x_['name'] == v[2]:
+                                dn = int(x_['discr'])
+                if dn is not None:
+                    v = T('const', dn)
             if v[0] == 'const':
                 for val, tgt in t['targets']:
                     if int(val) == v[1]:
